@@ -109,27 +109,29 @@ fn sort_printed_planes(args: &Args, planes_vector: &mut Vec<(&u32, &Plane)>) {
                     });
                 }
                 'd' => {
-                    planes_vector.sort_by_cached_key(|&(_, p)| {
-                        p.distance_from_observer.unwrap_or(0.0) as i32
+                    planes_vector.sort_by(|a, b| {
+                        let (x, y) = (a.1.distance_from_observer, b.1.distance_from_observer);
+                        x.unwrap_or(0.0).total_cmp(&y.unwrap_or(0.0))
                     });
                 }
                 'D' => {
-                    planes_vector.sort_by_cached_key(|&(_, p)| {
-                        p.distance_from_observer.unwrap_or(0.0) as i32
+                    planes_vector.sort_by(|a, b| {
+                        let (x, y) = (a.1.distance_from_observer, b.1.distance_from_observer);
+                        x.unwrap_or(0.0).total_cmp(&y.unwrap_or(0.0))
                     });
                     planes_vector.reverse();
                 }
                 'N' => {
-                    planes_vector.sort_by_cached_key(|&(_, p)| p.lat as i32);
+                    planes_vector.sort_by(|a, b| a.1.lat.total_cmp(&b.1.lat));
                 }
                 'S' => {
-                    planes_vector.sort_by_cached_key(|&(_, p)| -(p.lat as i32));
+                    planes_vector.sort_by(|a, b| b.1.lat.total_cmp(&a.1.lat));
                 }
                 'W' => {
-                    planes_vector.sort_by_cached_key(|&(_, p)| p.lon as i32);
+                    planes_vector.sort_by(|a, b| a.1.lon.total_cmp(&b.1.lon));
                 }
                 'E' => {
-                    planes_vector.sort_by_cached_key(|&(_, p)| -(p.lon as i32));
+                    planes_vector.sort_by(|a, b| b.1.lon.total_cmp(&a.1.lon));
                 }
                 's' => {
                     planes_vector.sort_by_cached_key(|&(_, p)| p.squawk);
